@@ -34,7 +34,17 @@ RULE = (
     "atol = 0: unequal) and aequals / diff without tolerance (names exactly that member), from both sides; (ii) rank / kernel results "
     "and comparators holding them identical in method, values and extra whose alternatives are the same labels (strings, whole "
     "numbers) in another order (two swapped, reversed, rotated, shuffled): unequal at every tolerance, diff names `alternatives` "
-    "(`ranks`), from both sides; for every pair ==, equals must answer what aequals / diff(rtol=0, atol=0, equal_nan=False, "
+    "(`ranks`), from both sides; (iii) every kind of left operand (matrix, rank result, kernel result, comparator) compared with "
+    "UNRELATED objects of awkward shapes, every kind with every left operand in every run: ragged nested sequences (rows of "
+    "different lengths - random, the documented [[1, 2, 3], [4, 5]] / [1, [2, 3]] shapes, the left operand's own shape with one row "
+    "a cell longer / shorter - as lists, tuples, lists of arrays, object arrays, Series of lists, dict values, generators, sets of "
+    "tuples, three levels deep), None / NotImplemented / scalars, strings (also the left's type name), bytes, empty and regular "
+    "sequences, the left operand's own values as a nested list / ndarray / pandas object / dict of members, containers holding the "
+    "left operand, dicts, sets, generators and iterators, 0-d / empty / 3-d / masked / structured arrays, pandas objects, classes "
+    "(also the library's own), functions, bound methods of the left operand, modules, an object whose len / iter / __array__ / "
+    "shape raise: ==, != (both operand orders unless NumPy / pandas answer the reflected operator), equals, aequals, diff, assert_* "
+    "never raise (assert_*: AssertionError), the answer is 'not equal' and diff says different_types; "
+    "for every pair ==, equals must answer what aequals / diff(rtol=0, atol=0, equal_nan=False, "
     "check_dtypes=True) answer; "
     "numeric members changed by 0.37x (within) or 2.7x (beyond) a design tolerance drawn from the grid; different "
     "shapes / lengths including 1 (broadcasting) and 0; unrelated types (dm / rank / kernel / comparator / int / None / str / list / "
@@ -213,6 +223,227 @@ def _mk_other(kind):
             "ndarray": np.array([1.0, 2.0, 3.0])}[kind]
 
 
+# ---- UNRELATED objects of awkward shapes (the right operand of a comparison with a matrix / result / comparator)
+
+
+class _Plain:
+    """a user-defined class without any comparison / sequence protocol"""
+
+
+class _Hostile:
+    """an object every sequence / array protocol of which raises (its `==` is the default one)"""
+
+    def __len__(self):
+        raise RuntimeError("no len")
+
+    def __iter__(self):
+        raise RuntimeError("no iter")
+
+    def __getitem__(self, i):
+        raise RuntimeError("no getitem")
+
+    def __array__(self, *a, **k):
+        raise RuntimeError("no array")
+
+    @property
+    def shape(self):
+        raise RuntimeError("no shape")
+
+    @property
+    def dtype(self):
+        raise RuntimeError("no dtype")
+
+
+def _plain_function(a, b=1):
+    return a
+
+
+def _ragged_rows(spec):
+    """the rows of a ragged nested sequence: spec["rows"] are the row lengths (not all the same), spec["cell"] the cell type"""
+    rows, c = [], 0
+    for ln in spec["rows"]:
+        row = []
+        for _ in range(ln):
+            c += 1
+            row.append({"int": c, "float": c + 0.5, "str": "s%d" % c, "bool": c % 2 == 0}[spec["cell"]])
+        rows.append(row)
+    return rows
+
+
+def _mk_ragged(spec):
+    import pandas as pd
+
+    rows = _ragged_rows(spec)
+    w = spec["wrap"]
+    if w == "list":
+        return [list(r) for r in rows]
+    if w == "tuple":
+        return tuple(tuple(r) for r in rows)
+    if w == "tuple-of-lists":
+        return tuple(list(r) for r in rows)
+    if w == "list-of-tuples":
+        return [tuple(r) for r in rows]
+    if w == "arrays":
+        return [np.array(r) for r in rows]
+    if w == "tuple-of-arrays":
+        return tuple(np.array(r) for r in rows)
+    if w == "scalar-first":  # [1, [2, 3]]
+        return [1] + [list(r) for r in rows]
+    if w == "scalar-last":
+        return [list(r) for r in rows] + [0.5]
+    if w == "deep":  # ragged at the third level only
+        return [[list(r)] for r in rows]
+    if w == "deep-outer":  # ragged at the second and third level
+        return [[list(r) for r in rows[:1]], [list(r) for r in rows[1:]] + [[]]]
+    if w == "object-array":
+        a = np.empty(len(rows), dtype=object)
+        for i, r in enumerate(rows):
+            a[i] = list(r)
+        return a
+    if w == "series":
+        return pd.Series([list(r) for r in rows], dtype=object)
+    if w == "dict-values":
+        return {"r%d" % i: list(r) for i, r in enumerate(rows)}
+    if w == "generator":
+        return (list(r) for r in rows)
+    if w == "set-of-tuples":
+        return {tuple(r) for r in rows}
+    if w == "list-of-sets":
+        return [set(r) for r in rows]
+    if w == "list-of-ranges":
+        return [range(len(r)) for r in rows]
+    if w == "list-of-strs":
+        return ["x" * len(r) for r in rows]
+    raise KeyError(w)
+
+
+RAGGED_WRAPS = ["list", "tuple", "arrays", "scalar-first", "tuple-of-lists", "list-of-tuples", "tuple-of-arrays", "scalar-last",
+                "deep", "deep-outer", "object-array", "series", "dict-values", "generator", "set-of-tuples", "list-of-sets",
+                "list-of-ranges", "list-of-strs"]
+
+
+def _zero_d(v):
+    a = np.empty((), dtype=object)
+    a[()] = v
+    return a
+
+
+def _own_values(x):
+    """the numbers the left object holds, as a plain nested list"""
+    from skcriteria.cmp import RanksComparator
+    from skcriteria.core import DecisionMatrix
+
+    if type(x) is DecisionMatrix:
+        return x.matrix.to_numpy().tolist()
+    if type(x) is RanksComparator:
+        return [np.asarray(r.values).tolist() for _, r in x.ranks]
+    return np.asarray(x.values).tolist()
+
+
+def _own_frame(x):
+    import pandas as pd
+    from skcriteria.cmp import RanksComparator
+    from skcriteria.core import DecisionMatrix
+
+    if type(x) is DecisionMatrix:
+        return x.matrix.copy()
+    if type(x) is RanksComparator:
+        return pd.DataFrame({n: pd.Series(np.asarray(r.values).tolist()) for n, r in x.ranks})
+    return pd.Series(np.asarray(x.values).tolist(), index=list(x.alternatives))
+
+
+def _own_dict(x):
+    from skcriteria.cmp import RanksComparator
+    from skcriteria.core import DecisionMatrix
+
+    if type(x) is DecisionMatrix:
+        return x.to_dict()
+    if type(x) is RanksComparator:
+        return dict(x.ranks)
+    return {"method": x.method, "alternatives": x.alternatives, "values": x.values, "extra_": dict(x.extra_)}
+
+
+def _awkward_table():
+    """name -> (left object -> an object unrelated to every class of the library); every call builds a fresh object"""
+    import collections
+    import decimal
+    import functools
+    import pandas as pd
+    from skcriteria.agg import RankResult
+    from skcriteria.cmp import RanksComparator
+    from skcriteria.core import DecisionMatrix
+
+    return {
+        # nothing / singletons / scalars
+        "None": lambda x: None, "NotImplemented": lambda x: NotImplemented, "Ellipsis": lambda x: Ellipsis,
+        "True": lambda x: True, "zero": lambda x: 0, "float-nan": lambda x: float("nan"), "float-inf": lambda x: float("inf"),
+        "complex": lambda x: 1j, "Fraction": lambda x: Fraction(1, 3), "Decimal": lambda x: decimal.Decimal("1.5"),
+        "np.float64": lambda x: np.float64(2.5), "np.int64": lambda x: np.int64(3), "pd.NA": lambda x: pd.NA,
+        "pd.Timestamp": lambda x: pd.Timestamp("2020-01-01"), "object()": lambda x: object(),
+        # text / bytes
+        "str": lambda x: "abc", "empty-str": lambda x: "", "str-of-nested-list": lambda x: "[[1, 2, 3], [4, 5]]",
+        "own-type-name": lambda x: type(x).__name__, "bytes": lambda x: b"abc", "empty-bytes": lambda x: b"", "bytearray": lambda x: bytearray(b"ab"),
+        "memoryview": lambda x: memoryview(b"abcd"),
+        # regular and empty sequences
+        "empty-list": lambda x: [], "empty-tuple": lambda x: (), "list-of-empty-lists": lambda x: [[], []],
+        "regular-nested-list": lambda x: [[1, 2, 3], [4, 5, 6]], "regular-nested-tuple": lambda x: ((1.0, 2.0), (3.0, 4.0)),
+        "list-of-None": lambda x: [None, None], "list-of-dicts": lambda x: [{"a": 1}, {"b": 2, "c": 3}],
+        "range": lambda x: range(3), "deque": lambda x: collections.deque([1, 2]), "namedtuple": lambda x:
+            collections.namedtuple("P", "a b")(1, [2, 3]),
+        # the left object's own data as something that is not one of the library's objects
+        "own-values-nested-list": lambda x: _own_values(x), "own-values-ndarray": lambda x: np.asarray(_own_values(x)),
+        "own-values-pandas": lambda x: _own_frame(x), "own-members-dict": lambda x: _own_dict(x),
+        "own-shape-tuple": lambda x: tuple(np.shape(_own_values(x))),
+        # containers holding the left object itself
+        "list-holding-left": lambda x: [x], "tuple-holding-left-twice": lambda x: (x, x), "dict-holding-left": lambda x: {"k": x},
+        "ragged-list-holding-left": lambda x: [x, [x]], "0-d-array-holding-left": lambda x: _zero_d(x),
+        # mappings / sets / iterators
+        "dict": lambda x: {"a": 1, "b": [1, 2]}, "empty-dict": lambda x: {}, "nested-dict": lambda x: {"a": {"b": {"c": [1, [2]]}}},
+        "OrderedDict": lambda x: collections.OrderedDict(a=1), "dict-int-keys": lambda x: {0: [1, 2], 1: [3]},
+        "set": lambda x: {1, 2, 3}, "empty-set": lambda x: set(), "frozenset": lambda x: frozenset([1, (2, 3)]),
+        "generator": lambda x: (i for i in range(3)), "empty-generator": lambda x: (i for i in ()), "iterator": lambda x: iter([1, 2]),
+        "map-object": lambda x: map(abs, [1, -2]), "zip-object": lambda x: zip([1, 2], [3, 4]), "dict-keys": lambda x: {"a": 1}.keys(),
+        # arrays
+        "0-d-float-array": lambda x: np.array(3.0), "0-d-int-array": lambda x: np.array(3), "0-d-str-array": lambda x: np.array("x"),
+        "0-d-None-array": lambda x: _zero_d(None), "0-d-list-array": lambda x: _zero_d([1, [2, 3]]),
+        "empty-array": lambda x: np.array([]), "empty-2d-array": lambda x: np.zeros((0, 3)), "3-d-array": lambda x: np.zeros((2, 2, 2)),
+        "str-array": lambda x: np.array(["a", "b"]), "bool-array": lambda x: np.array([True, False]),
+        "masked-array": lambda x: np.ma.array([1.0, 2.0], mask=[False, True]),
+        "structured-array": lambda x: np.zeros(2, dtype=[("a", int), ("b", float)]),
+        # pandas
+        "pd.Series": lambda x: pd.Series([1.0, 2.0], index=["a", "b"]), "empty-pd.Series": lambda x: pd.Series([], dtype=float),
+        "pd.DataFrame": lambda x: pd.DataFrame({"a": [1, 2], "b": [3.0, 4.0]}), "empty-pd.DataFrame": lambda x: pd.DataFrame(),
+        "pd.Index": lambda x: pd.Index(["a", "b"]), "pd.MultiIndex": lambda x: pd.MultiIndex.from_tuples([("a", 1), ("b", 2)]),
+        "pd.Categorical": lambda x: pd.Categorical(["a", "b", "a"]),
+        # classes, functions, modules
+        "class-int": lambda x: int, "class-dict": lambda x: dict, "class-type": lambda x: type, "class-ndarray": lambda x: np.ndarray,
+        "class-user": lambda x: _Plain, "class-DecisionMatrix": lambda x: DecisionMatrix, "class-RankResult": lambda x: RankResult,
+        "class-RanksComparator": lambda x: RanksComparator, "class-of-left": lambda x: type(x),
+        "instance-user": lambda x: _Plain(), "instance-hostile": lambda x: _Hostile(), "exception-instance": lambda x: ValueError("x"),
+        "lambda": lambda x: (lambda a: a), "function": lambda x: _plain_function, "builtin-len": lambda x: len,
+        "np.shape": lambda x: np.shape, "bound-method-diff": lambda x: x.diff, "bound-method-equals": lambda x: x.equals,
+        "unbound-method": lambda x: type(x).diff, "partial": lambda x: functools.partial(_plain_function, 1),
+        "module-numpy": lambda x: np,
+    }
+
+
+def _awkward_names():
+    return sorted(_awkward_table())
+
+
+def _mk_awkward(spec, left):
+    if spec["what"] == "ragged":
+        return _mk_ragged(spec)
+    return _awkward_table()[spec["what"]](left)
+
+
+def _foreign_eq(y):
+    """is `y == x` answered by NumPy / pandas (elementwise, not a bool) rather than by Python's default / the library?"""
+    import pandas as pd
+
+    return isinstance(y, (np.ndarray, np.generic, pd.Series, pd.DataFrame, pd.Index, pd.Categorical, type(pd.NA)))
+
+
 def _copy_kw(kw):
     """spec of keyword arguments of DecisionMatrix.copy(**kw) -> the values"""
     out = {}
@@ -285,6 +516,8 @@ def build(spec, left=None):
     if o == "rcmp":
         return RanksComparator([(n, _mk_result(r)) for n, r in spec["ranks"]])
     if o == "other":
+        if spec["v"] == "awkward":
+            return _mk_awkward(spec, left)
         return _mk_other(spec["v"])
     raise KeyError(o)
 
@@ -442,7 +675,7 @@ def observe(case):
     obs["eq"] = _call(lambda: x == y)
     obs["ne"] = _call(lambda: x != y)
     obs["equals"] = _call(lambda: x.equals(y))
-    rev_ok = not isinstance(y, np.ndarray)
+    rev_ok = not isinstance(y, np.ndarray) and not _foreign_eq(y)
     obs["eq_rev"] = _call(lambda: y == x) if rev_ok else None
     obs["ne_rev"] = _call(lambda: y != x) if rev_ok else None
     obs["default"] = {"aequals": _call(lambda: x.aequals(y)), "diff": _diff(x, y, {}), "assert": _assert(x, y, {})}
@@ -683,6 +916,8 @@ def judge(case, obs, replies):
         for nm, o in zip(names, per):
             if o["diff"]["different_types"] is not True or o["aequals"] is not False:
                 prop(f"unrelated types: diff does not say different_types ({nm})", True, o["diff"])
+            if o["diff"].get("has_differences") is False:
+                prop(f"unrelated types: diff reports no differences ({nm})", True, o["diff"])
             if o["assert"] != "AssertionError":
                 prop(f"unrelated types: assert_* did not raise AssertionError ({nm})", "AssertionError", o["assert"])
     # ---------------- different shape / length
@@ -869,6 +1104,9 @@ def tags(case, obs):
         t.append("extra-value-type:" + case["sub"])
     if case["relation"] == "types":
         t.append("other:" + obs["right"]["kind"] + ":" + str(obs["right"].get("type")))
+        if case.get("awkward"):
+            t.append("awkward:" + case["awkward"])
+            t.append("awkward-holder:" + case["holder"])
     if case["relation"] == "shape":
         t.append("shape:" + case.get("shape_note", "?"))
     if case.get("history"):
@@ -1860,6 +2098,52 @@ def gen(ctx):
         else:
             right = gen_obj(rng, rng.choice([k for k in kinds if k != kind]))
         cases.append(_mk("types", left, right, _tols(ctx, rng)))
+
+    # 4b. (a fixed share of every run) a matrix / rank result / kernel result / comparator compared with an UNRELATED object of
+    #     an awkward shape - every kind of object with every kind of left operand in turn: ragged nested sequences (random row
+    #     lengths, every wrapping, rows shaped like the left operand's with one row longer / shorter), and the table of
+    #     _awkward_table().  Never an exception, always unequal, diff says `different_types`.
+    holders = ["dm", "rank", "kernel", "rcmp"]
+
+    def holder_obj(h):
+        if h == "dm":
+            return gen_dm(rng)
+        if h == "rcmp":
+            return gen_rcmp(rng)
+        return gen_result(rng, typ=h)
+
+    def dims(h, spec):
+        if h == "dm":
+            return len(spec["matrix"]), len(spec["criteria"])
+        if h == "rcmp":
+            return len(spec["ranks"]), len(spec["ranks"][0][1]["alternatives"])
+        return 2, len(spec["alternatives"])
+
+    def awk(h, left, right, note):
+        cases.append(_mk("types", left, dict({"o": "other", "v": "awkward"}, **right), _tols(ctx, rng), awkward=note, holder=h))
+
+    for rep in range(ctx.n(1, 6)):
+        for wi, wrap in enumerate(RAGGED_WRAPS):
+            for hi, h in enumerate(holders):
+                left = holder_obj(h)
+                m, n = dims(h, left)
+                style = (wi + hi + rep) % 3
+                if style == 0 and m >= 2:  # the left operand's own shape, one row one cell longer / shorter
+                    rows = [n] * m
+                    rows[rng.randrange(m)] = n + 1 if (n == 0 or rng.random() < 0.5) else n - 1
+                elif style == 1:  # the shapes of the examples: [[1, 2, 3], [4, 5]], [[1], [2, 3]]
+                    rows = rng.choice([[3, 2], [2, 3], [1, 2], [2, 1], [2, 0], [0, 1]])
+                else:
+                    rows = [rng.randint(0, 4) for _ in range(rng.randint(2, 4))]
+                    if len(set(rows)) == 1:
+                        rows[-1] += 1
+                cell = rng.choice(["int", "int", "float", "float", "str", "bool"])
+                if wrap in ("set-of-tuples", "list-of-sets") and cell == "bool":
+                    cell = "int"
+                awk(h, left, {"what": "ragged", "wrap": wrap, "rows": rows, "cell": cell}, "ragged:" + wrap)
+        for name in _awkward_names():
+            for h in holders:
+                awk(h, holder_obj(h), {"what": name}, name)
 
     # 5. unrelated random pairs of the same kind; pairs with NaN (correspondence, consistency)
     for _ in range(ctx.n(40, 800)):
